@@ -2,6 +2,7 @@
 import collections
 import decimal
 import os
+import pathlib
 import tempfile
 import warnings
 
@@ -40,7 +41,7 @@ NODE_CLASSES = {"Node": Node, "EqNode": nodes.EqNode, "FalsyNode": nodes.FalsyNo
 
 # names that are not plain strings, or whose text needs care: equal-but-different numbers, str subclasses with their own
 # __str__, text that cannot be encoded (lone surrogates, as produced by the 'surrogateescape' handler for file names)
-EXOTIC_NAMES = [{"float": "0.0"}, {"float": "-0.0"}, {"dec": "1.0"}, {"dec": "1.00"}, {"bool": True}, {"int": 1}, {"tag": 'q"x'}, {"tag": "plain"}, "plain", "caf\udce9", "caf\udce8", "caf?", {"float": "1e+22"}, {"none": 1}]
+EXOTIC_NAMES = [{"float": "0.0"}, {"float": "-0.0"}, {"dec": "1.0"}, {"dec": "1.00"}, {"bool": True}, {"int": 1}, {"tag": 'q"x'}, {"tag": "plain"}, "plain", "caf\udce9", "caf\udce8", "caf?", {"float": "1e+22"}, {"none": 1}, {"winpath": 'C:\\data\\q"x'}, {"list": ["it's", 'a"b', "c\\d"]}]
 
 
 def decode_name(spec):
@@ -58,6 +59,10 @@ def decode_name(spec):
         return rr.TaggedName(spec["tag"])
     if "none" in spec:
         return None
+    if "winpath" in spec:
+        return pathlib.PureWindowsPath(spec["winpath"])
+    if "list" in spec:
+        return list(spec["list"])
     raise ValueError(spec)
 
 
@@ -122,6 +127,11 @@ def expected_structure(tree, start, stop_ids, hide_ids, maxlevel):
     return declared, edges, kf
 
 
+_COMMON = ["graph", "name", "options", "indent", "nodenamefunc", "nodeattrfunc", "edgeattrfunc", "edgetypefunc", "filter_"]
+POSITIONAL_ORDER = {"DotExporter": _COMMON + ["maxlevel", "stop"], "RenderTreeGraph": _COMMON + ["maxlevel", "stop"], "UniqueDotExporter": _COMMON + ["stop", "maxlevel"]}
+POSITIONAL_DEFAULTS = {"graph": "digraph", "name": "tree", "indent": 4}
+
+
 class CallbackBoom(Exception):
     """Raised by a user callback (filter_, stop, a naming/attribute function) in the middle of an export."""
 
@@ -177,16 +187,21 @@ def check_exporter(case, kind, tree, labels, acc):
             kwargs[key] = case[key]
     trip = {"left": None}
     kwargs = tripwired(kwargs, trip)
+    args = ()
+    if case.get("positional"):
+        # every option passed by position, in the order of the released signatures (callers written that way must keep working)
+        args = tuple(kwargs.get(key, POSITIONAL_DEFAULTS.get(key)) for key in POSITIONAL_ORDER[kind])
+        kwargs = {}
     if kind == "DotExporter":
-        exporter = DotExporter(start, **kwargs)
+        exporter = DotExporter(start, *args, **kwargs)
     elif kind == "UniqueDotExporter":
-        exporter = UniqueDotExporter(start, **kwargs)
+        exporter = UniqueDotExporter(start, *args, **kwargs)
     else:
         from anytree.dotexport import RenderTreeGraph
 
         with warnings.catch_warnings():
             warnings.simplefilter("ignore")
-            exporter = RenderTreeGraph(start, **kwargs)
+            exporter = RenderTreeGraph(start, *args, **kwargs)
     ctx = "%s start=%s stop=%s hide=%s maxlevel=%r shape=%s names=%r" % (kind, case["start"], case["stop"], case["hide"], maxlevel, case["shape"], case["names"])
 
     def verify(lines, known_ident, phase):
@@ -345,7 +360,112 @@ def check_exporter(case, kind, tree, labels, acc):
     return lines, declared, edges
 
 
+LOCALE_SCRIPT = r"""
+import os, sys, tempfile
+from anytree import Node
+from anytree.exporter import DotExporter, MermaidExporter, UniqueDotExporter
+root = Node("Z\u00fcrich")
+Node("\u6f22\u5b57 \"q\"", parent=Node("caf\u00e9", parent=root))
+Node("\U0001f333", parent=root)
+which = sys.argv[1]
+exporter = {"dot": DotExporter, "uniquedot": UniqueDotExporter, "mermaid": MermaidExporter}[which](root)
+lines = list(exporter)
+fd, path = tempfile.mkstemp(prefix="vf-locale-")
+os.close(fd)
+try:
+    if which == "mermaid":
+        exporter.to_file(path)
+        want = "```mermaid\n" + "".join(l + "\n" for l in lines) + "```"
+    else:
+        exporter.to_dotfile(path)
+        want = "".join(l + "\n" for l in lines)
+    with open(path, "rb") as fh:
+        data = fh.read()
+finally:
+    os.unlink(path)
+print("SAME" if data == want.encode("utf-8") else "DIFFERENT %r" % (data[:200],))
+"""
+
+
+def check_locale(case, acc):
+    """to_dotfile/to_file in an interpreter whose locale encoding is NOT UTF-8 (C locale, UTF-8 mode off): the files are
+    UTF-8 all the same, because the exporters name the encoding themselves."""
+    import subprocess
+    import sys
+
+    from .. import core
+
+    env = {k: v for k, v in os.environ.items() if not k.startswith(("LC_", "LANG", "PYTHON"))}
+    env.update({"LC_ALL": "C", "LANG": "C", "PYTHONUTF8": "0", "PYTHONCOERCECLOCALE": "0", "PYTHONPATH": core.REPO, "PYTHONIOENCODING": "utf-8"})
+    proc = subprocess.run([sys.executable, "-c", LOCALE_SCRIPT, case["which"]], env=env, stdout=subprocess.PIPE, stderr=subprocess.PIPE, text=True, timeout=120)
+    out = proc.stdout.strip()
+    if out != "SAME":
+        raise Violation("to_dotfile" if case["which"] != "mermaid" else "to_file", "under LC_ALL=C with UTF-8 mode off the %s file is not the UTF-8 text of the exporter's lines: %s %s" % (case["which"], out, proc.stderr.strip()[-300:]))
+    acc.nontrivial(True)
+    acc.tag("files_written_under_a_non_utf8_locale")
+
+
+def check_gc(case, acc):
+    """A long-lived UniqueDotExporter while nodes it has already named are detached, dropped and garbage-collected and new
+    nodes are attached: identifiers stay distinct, surviving nodes keep theirs, edges refer to declared identifiers."""
+    import gc
+    import re
+
+    def build():
+        root = Node("r")
+        kids = [Node("k%d" % i, parent=root) for i in range(case["width"])]
+        Node("s", parent=kids[1])
+        return root
+
+    def parse(lines):
+        ids, edges = {}, []
+        for line in lines[1:-1]:
+            m = re.match(r'^\s*"([^"]+)" \[label="([^"]*)"\];$', line)
+            if m:
+                if m.group(2) in ids:
+                    raise Violation("syntax", "label %r declared twice in %r" % (m.group(2), lines))
+                ids[m.group(2)] = m.group(1)
+                continue
+            m = re.match(r'^\s*"([^"]+)" -> "([^"]+)";$', line)
+            if not m:
+                raise Violation("syntax", "unexpected line %r" % (line,))
+            edges.append((m.group(1), m.group(2)))
+        return ids, edges
+
+    root = build()
+    exporter = UniqueDotExporter(root)
+    known = {}
+    counter = 0
+    for victim_index in case["victims"]:
+        ids, edges = parse(list(exporter))
+        if len(set(ids.values())) != len(ids):
+            raise Violation("identifier-collision", "identifiers %r are not distinct (after %d nodes were dropped and replaced)" % (ids, counter))
+        for label, ident in ids.items():
+            if known.setdefault(label, ident) != ident:
+                raise Violation("identifier-stability", "node %r was %s in an earlier export of the same exporter and is %s now" % (label, known[label], ident))
+        declared = set(ids.values())
+        if any(a not in declared or b not in declared for a, b in edges) or len(edges) != len(ids) - 1:
+            raise Violation("missing-edge", "edges %r do not fit the declared identifiers %r" % (edges, ids))
+        kids = root.children
+        victim = kids[victim_index % len(kids)]
+        known.pop(victim.name, None)
+        for sub in victim.children:
+            known.pop(sub.name, None)
+        victim.parent = None
+        del victim, kids
+        gc.collect()
+        counter += 1
+        Node("new%d" % counter, parent=root.children[0])
+        Node("top%d" % counter, parent=root)
+    acc.nontrivial(True)
+    acc.tag("exports_after_nodes_were_garbage_collected", len(case["victims"]))
+
+
 def check_case(case, acc):
+    if case.get("kind") == "gc":
+        return check_gc(case, acc)
+    if case.get("kind") == "locale":
+        return check_locale(case, acc)
     names = case["names"]
     nodecls = NODE_CLASSES[case.get("cls", "Node")]
     tree = forest.build_tree(case["shape"], lambda i: nodecls(decode_name(names[i])))
@@ -358,7 +478,7 @@ def check_case(case, acc):
         for op in case["mutations"]:
             # exports reflect the current tree: same nodes, changed links / names
             refs.mutate_tree(tree, op)
-            if len({n.name for n in tree}) == len(tree) or case.get("exporters") == ["UniqueDotExporter"]:
+            if len({str(n.name) for n in tree}) == len(tree) or case.get("exporters") == ["UniqueDotExporter"]:
                 for kind in case.get("exporters", ["DotExporter", "UniqueDotExporter", "RenderTreeGraph"]):
                     check_exporter(case, kind, tree, labels, acc)
                 acc.tag("rechecked_after_mutation")
@@ -419,7 +539,7 @@ def _enum_cases(max_nodes, index, count):
             for stop in shapes.subsets(sub):
                 for hide in shapes.subsets(sub):
                     for maxlevel in [None] + list(range(0, height + 3)):
-                        yield {"shape": forest.to_list(shape), "names": names, "start": start, "stop": stop, "hide": hide, "maxlevel": maxlevel, "truth": k, "cls": ("Node", "EqNode", "Node", "FalsyNode", "LenNode")[k % 5]}
+                        yield {"shape": forest.to_list(shape), "names": names, "start": start, "stop": stop, "hide": hide, "maxlevel": maxlevel, "truth": k, "positional": k % 4 == 0, "cls": ("Node", "EqNode", "Node", "FalsyNode", "LenNode")[k % 5]}
 
 
 NAME = st.text(alphabet=NAME_ALPHABET, min_size=0, max_size=4)
@@ -438,7 +558,7 @@ def random_cases(draw, exporters=("DotExporter", "UniqueDotExporter", "RenderTre
     else:
         names = ["%s%d" % (draw(NAME), i) if draw(st.booleans()) else "%d%s" % (i, draw(NAME)) for i in range(size)]
         if draw(st.integers(0, 3)) == 0:
-            names = exotic_names(size, draw(st.integers(0, 13)))
+            names = exotic_names(size, draw(st.integers(0, 15)))
         kinds = list(exporters)
     case = {
         "shape": shape,
@@ -448,6 +568,7 @@ def random_cases(draw, exporters=("DotExporter", "UniqueDotExporter", "RenderTre
         "hide": draw(strategies.subsets_of(size, max_size=4)),
         "maxlevel": draw(st.one_of(st.none(), st.integers(0, 6))),
         "truth": draw(st.integers(0, 3)),
+        "positional": draw(st.integers(0, 3)) == 0,
         "exporters": kinds,
         "to_file": draw(st.integers(0, 9)) == 0 and not any(isinstance(n, str) and any(0xD800 <= ord(ch) <= 0xDFFF for ch in n) for n in names),  # lone surrogates cannot be written as UTF-8
         "mutations": draw(strategies.tree_mutations(max_ops=2)),
@@ -490,11 +611,27 @@ def plan(tier, seed):
     examples = 150 if tier == "quick" else 1200
     tasks = [{"engine": "enum", "max_nodes": max_nodes, "index": i, "count": nshards * 2} for i in range(nshards * 2)]
     tasks += [{"engine": "hyp", "examples": examples, "seed": seed * 1000 + i} for i in range(nshards)]
+    tasks += [{"engine": "gc"}, {"engine": "locale", "which": ["dot", "uniquedot"]}]
     tasks += [{"engine": "wide", "widths": [w]} for w in ((300, 700) if tier == "quick" else (257, 300, 700, 1100, 2500))]
     return tasks
 
 
 def run_task(task, acc):
+    if task["engine"] == "locale":
+        for which in task["which"]:
+            case = {"kind": "locale", "which": which}
+            exc = acc.evaluate(check_case, case, enumerated=False)
+            if exc is not None:
+                acc.add_violation(case, exc)
+        return
+    if task["engine"] == "gc":
+        for victims in ([0], [1, 0, 2], [2, 2, 2, 0], [3, 1, 4, 1, 0], [0, 0, 0, 0]):
+            case = {"kind": "gc", "width": 5, "victims": victims}
+            exc = acc.evaluate(check_case, case, enumerated=False)
+            if exc is not None:
+                acc.add_violation(case, exc)
+                break
+        return
     if task["engine"] == "wide":
         for case in _wide_cases(task["widths"]):
             exc = acc.evaluate(check_case, case, enumerated=False)
